@@ -146,6 +146,8 @@ int sa_lookup(const void *p, void **base, size_t *size, int *live, uint32_t *ser
     if (ser) *ser = blk[i].serial;
     return 1;
 }
+/* does the address lie in the simulated heap at all (as opposed to static storage or the stack)? */
+int sa_in_arena(const void *p) { uintptr_t a = (uintptr_t)p; return (a >= ARENA_BASE && a < ARENA_BASE + COMPACT_SIZE) || (a >= FAR_BASE && a < FAR_BASE + FAR_SIZE); }
 int sa_readable(const void *p, size_t n)
 {
     int i;
